@@ -71,9 +71,9 @@ if alist:
     # with -i several (function, file:line) pairs may be printed per address: ask one by one to keep the pairing simple
     for a in alist:
         rr = subprocess.run(["addr2line", "-f", "-i", "-e", h, "0x" + a], stdout=subprocess.PIPE, stderr=subprocess.DEVNULL)
-        ls = rr.stdout.decode(errors="replace").split("\n")
-        fn = ls[0].strip() if ls and ls[0].strip() else "?"
-        names[a] = fn if fn != "??" else "?"
+        fns = [x.strip() for x in rr.stdout.decode(errors="replace").split("\n")[0::2] if x.strip()]
+        fns = [x for x in fns if x != "??"] or ["?"]
+        names[a] = "<".join(fns)          # inlined frames: innermost first
 
 
 def resolve(o):
@@ -82,7 +82,7 @@ def resolve(o):
         for part in m.group(1).split(","):
             if "@" in part:
                 t, a = part.split("@", 1)
-                parts.append("%s@%s" % (t, "<".join(names.get(x, x) for x in a.split("/"))))
+                parts.append("%s@%s" % (t, "<".join("<".join(names.get(x, x) for x in a.split("/")).split("<")[:5])))
             else:
                 parts.append(part)
         return "fail=" + ",".join(parts)
